@@ -51,11 +51,11 @@ Proof. exact sq_value_roundtrip. Qed.
    of whitespace, "/", ">", "=", NUL; ANY values, quoted or not -- is read by S_tok from the data state as exactly
    one start tag: that name and those attribute names ASCII-lower-cased, in order, with those values (U+0000 as
    U+FFFD; a minimised boolean attribute reads as empty; of attributes whose written names coincide the first
-   wins), self-closing iff Ser wrote the solidus; and S_tok is back in the data state right behind the ">". *)
-Theorem c08_start_tag_roundtrip : forall o name (a : attrs) rest cu t out cd,
+   wins), self-closing iff Ser wrote the solidus (only for EmptyTag tokens of void elements, as repaired in /repo); and S_tok is back in the data state right behind the ">". *)
+Theorem c08_start_tag_roundtrip : forall o (empty : bool) name (a : attrs) rest cu t out cd,
   qc_ok o -> tname_ok name = true -> forallb (fun x => aname_ok (snd (fst x))) a = true ->
-  let sc := mem_str name voidElements && solidus o in
-  exists j, sp_iter j (mk_tk dataState (ser_start o name a ++ rest) cu t out cd false)
+  let sc := empty && mem_str name voidElements && solidus o in
+  exists j, sp_iter j (mk_tk dataState (ser_start o empty name a ++ rest) cu t out cd false)
             = Some (mk_tk dataState rest (CTag false (lower_str name) (map (rd_attr o name) a) sc) t
                       (OStart (lower_str name) (first_wins [] (map (rd_attr o name) a)) sc :: out) cd false).
 Proof. exact start_tag_roundtrip. Qed.
